@@ -18,8 +18,8 @@ ASSUMPTIONS = [
     "rules judged: md001 md003 md004 md009 md010 md012 md013 md019 md022 md023 md024 md025 md026 md031 md032 md035 md040 md041 md042 md045 md046 md047 md048",
 ]
 N_Z1 = 5097
-N_Z3 = 14000
-N_Z7 = 30000
+N_Z3 = 10000
+N_Z7 = 20000
 N_CASES = N_Z1 + N_Z3 + N_Z7
 
 
@@ -34,7 +34,7 @@ def plan(tier, seed, complete=False):
         from vf.prng import R, mix
 
         r = R(mix("C06", seed))
-        idx = sorted(set(r.sample(N_Z1, 700)) | {N_Z1 + k for k in r.sample(N_Z3, 700)} | {N_Z1 + N_Z3 + k for k in r.sample(N_Z7, 900)})
+        idx = sorted(set(r.sample(N_Z1, 550)) | {N_Z1 + k for k in r.sample(N_Z3, 500)} | {N_Z1 + N_Z3 + k for k in r.sample(N_Z7, 750)})
     return {
         "items": [f"R:{i}" for i in idx],
         "zones": {"corpus": {"universe": N_Z1}, "rule-trigger documents (Z7)": {"universe": N_Z7}, "calm trees (every second one sprayed with long lines / trailing spaces / tabs / blank runs)": {"universe": N_Z3}, "run": {"documents": len(idx)}},
